@@ -114,6 +114,11 @@ class C11(UdpCheck):
             plan.append({"op": "flood", "global": True, "t": round(0.6 + rng.random() * (dur - 4.5), 3), "kind": kind,
                          "srcmode": srcmode, "count": rng.choice([100, 400, 1500]), "spread": rng.choice([0.0, 0.05, 0.5]),
                          "n": j, "victim": rng.randrange(n)})
+        if cfg["entry"] == "udpserver" and rng.random() < 0.3:
+            # Windows reports an ICMP "port unreachable" for an earlier reply (to a peer that is gone, or never existed) as
+            # ECONNRESET on the server's NEXT recvfrom: a failing system call provoked by any datagram source
+            for j in range(rng.choice([1, 3])):
+                plan.append({"op": "recvreset", "global": True, "t": round(1.0 + rng.random() * (dur - 5.0), 3)})
         if n > 1 and blocked_client is None and rng.random() < 0.35:
             # one client that completed the handshake turns hostile: it stops its own loop and from then on its address
             # sends datagrams sealed under ITS session key whose content no honest sender would produce
@@ -141,6 +146,7 @@ class C11(UdpCheck):
         Attacker(w)
         w.custom_ops["flood"] = self.op_flood
         w.custom_ops["insider"] = self.op_insider
+        w.custom_ops["recvreset"] = self.op_recvreset
         self.insider_seq = None
         self.insider_key = None
 
@@ -213,6 +219,12 @@ class C11(UdpCheck):
             att.count("flood-" + kind)
             w.net.inject(src, SERVER_ADDR, d, delay=op["spread"] * j / max(1, op["count"]), meta={"gen": "flood-" + kind})
         w.probe("flood_from_" + op["srcmode"])
+
+    def op_recvreset(self, w, _node, op):
+        import errno
+        for sock in w.seams.server_sockets:
+            sock.inject_recv_error(ConnectionResetError(errno.ECONNRESET, "Connection reset by peer (ICMP port unreachable)"))
+            w.probe("server_recvfrom_econnreset_injected")
 
     def op_insider(self, w, _node, op):
         """Datagrams that authenticate under the session key of a client that finished the handshake, with content
